@@ -35,6 +35,7 @@ THEOREMS = [
     "C17.repr_file",
     "C17.repr_injective",
     "C17.incremental",
+    "C17.incremental_given_reload",
     "C17.message_counterexample",
     "C17.message_partial",
     "C17.filename_suffix",
@@ -43,8 +44,6 @@ THEOREMS = [
     "C17.filename_default_partial",
 ]
 PARTIAL = {
-    "C17.incremental": "full view equality incl. branch labels; that the extended history loads (cycle detection accepts it) is a hypothesis, "
-                       "established on every generated case by the correspondence",
     "C17.message_partial": "full statement C17.message_statement is false (F12): the template pastes message, ids and date unescaped; proved for texts without double quote, backslash and NUL",
     "C17.filename_default_partial": "full statement C17.filename_statement is false: a revision id starting with '.#' or '__init__.' gives a file name the loader skips (generate_revision then returns None); proved for the default template and ids starting with a letter or digit",
 }
@@ -55,7 +54,8 @@ TRUSTED = [
 ]
 RULE = (
     "(a) sequences of 3-8 generate_revision/command.revision/command.merge calls per scratch directory x "
-    "{file_template, truncate_slug_length, one|two version_locations}; arguments: message class, rev_id given|generated, "
+    "{file_template, truncate_slug_length, one|two version_locations, recursive_version_locations}; version_path none|location|"
+    "sub-directory|sibling with a location's name as prefix|unrelated, absolute|relative; arguments: message class, rev_id given|generated, "
     "head selection (default, head id, partial id, label@head, base, heads, several heads, spliced non-head, non-head without splice), "
     "branch label (fresh|taken|tuple), depends_on (id|partial id|label|several); (b) add_revision on fake revisions over random "
     "and (thorough) all histories with <=3 revisions; a case is non-trivial when the call is accepted and the history has >=2 revisions; "
@@ -268,9 +268,16 @@ def gen_date(rng):
 # model ops
 
 
-def model_args(call, rid):
+def model_args(call, rid, env=None):
     head = call.get("head")
+    extra = {}
+    if env is not None:
+        vp, locs = env.model_paths(call.get("version_path"))
+        extra = {"locations": locs}
+        if vp is not None:
+            extra["versionPath"] = vp
     return {
+        **extra,
         "revid": rid,
         "heads": ["head"] if head is None else G._tl(head),
         "splice": bool(call.get("splice")),
@@ -334,7 +341,7 @@ def check_call(ctx, env, sd, model_m_hist, seg_calls, call, rid, dt, fresh_befor
     """runs one call on the implementation and performs every implementation-side check.
     returns (result dict, fresh_after or None)"""
     inp = {"call": {k: v for k, v in call.items()}, "rid": rid, "history": G.hist_of_map(fresh_before.revision_map),
-           "file_template": env.file_template, "trunc": env.trunc, "locations": len(env.locations), "stream": stream}
+           "file_template": env.file_template, "trunc": env.trunc, "locations": len(env.locations), "recursive": env.recursive, "stream": stream}
     try:
         req = G.requested(fresh_before, call, rid)
         unordered = req.pop("down_unordered")
@@ -383,7 +390,13 @@ def check_call(ctx, env, sd, model_m_hist, seg_calls, call, rid, dt, fresh_befor
     # file attributes of the freshly loaded revision = requested
     fr = fresh.revision_map._revision_map.get(rid)
     if fr is None or fr.revision != rid:
-        ctx.fail(inp, "attrs: the requested revision id is not in the reloaded directory", impl={"ids": [r["id"] for r in fv["revs"]]})
+        ctx.fail(inp, "reload: the generated revision is not loaded by a fresh ScriptDirectory (file %s)" % os.path.relpath(script.path, env.dir),
+                 impl={"ids": [r["id"] for r in fv["revs"]], "incremental_ids": [r["id"] for r in (out["inc_view"] or {"revs": []})["revs"]]})
+        for f in res["new_files"]:
+            os.unlink(f)
+        out.pop("fresh_view")
+        out["unloaded"] = True
+        return out, None
     else:
         got = G.file_attrs(fr)
         if req is not None and unordered and sorted(got["down"]) == sorted(req["down"]):
@@ -399,8 +412,10 @@ def run_sequences(ctx, n_seq, rng_name="seq", f12=False):
         tmpl = rng.choice(TEMPLATES)
         trunc = rng.choice([None, None, None, 5, 12, 1, 60])
         two = rng.random() < 0.25
-        env = G.Scratch(file_template=tmpl, trunc=trunc, two_locations=two)
+        rec = rng.random() < 0.4
+        env = G.Scratch(file_template=tmpl, trunc=trunc, two_locations=two, recursive=rec)
         ctx.hist("config", "template=%s trunc=%s locations=%d" % (tmpl, trunc, 2 if two else 1))
+        ctx.hist("recursive_version_locations", rec)
         try:
             run_one_sequence(ctx, rng, env, rng.randint(3, 8 if not ctx.thorough else 10), f12)
         finally:
@@ -428,9 +443,26 @@ def run_one_sequence(ctx, rng, env, n_calls, f12):
             else:
                 call["message"] = rng.choice(BACKSLASH_OK)
                 call["mclass"] = "backslash-ok"
-        if len(env.locations) > 1:
+        # version_path: a configured location, or (must be refused) a sub-directory of one, a sibling whose
+        # name starts with a location's name, an unrelated directory; absolute or relative to the cwd
+        vk = "none"
+        x = rng.random()
+        nloc = len(env.locations)
+        if call["kind"] == "merge":
+            pass  # command.merge has no version_path
+        elif x < 0.18:
+            vk = rng.choice(["subdir", "sibling", "sibling", "sibling2", "unrelated"])
+            call["version_path"] = {"kind": vk, "idx": rng.randrange(nloc), "relative": rng.random() < 0.3}
+        elif nloc > 1 and (call.get("head") == "base" or not st.ids or x < 0.45):
             # with two version locations a new root needs an explicit --version-path
-            call["version_path"] = rng.choice([0, 1]) if (call.get("head") == "base" or not st.ids or rng.random() < 0.3) else None
+            vk = "location"
+            call["version_path"] = {"kind": "location", "idx": rng.randrange(nloc), "relative": rng.random() < 0.3}
+        elif x < 0.30:
+            vk = "location"
+            call["version_path"] = {"kind": "location", "idx": rng.randrange(nloc), "relative": rng.random() < 0.3}
+        if vk != "none" and call["version_path"].get("relative"):
+            vk += "-relative"
+        ctx.hist("version_path", vk)
         rid = call["rev_id"] if call.get("rev_id") is not None else G_next_id(rng, all_taken)
         all_taken.add(rid)
         for l in G._tl(call.get("branch_label")):
@@ -449,7 +481,7 @@ def run_one_sequence(ctx, rng, env, n_calls, f12):
             seg_hist0, seg_calls, seg_records = G.hist_of_map(fresh.revision_map), [], []
         out, fresh_after = check_call(ctx, env, sd, None, seg_calls, call, rid, dt, fresh, "f12" if f12 else "main")
         out["dt"] = dt
-        seg_calls.append(model_args(call, rid))
+        seg_calls.append(model_args(call, rid, env))
         seg_records.append(out)
         accepted = fresh_after is not None
         if accepted:
@@ -578,7 +610,7 @@ def compare_call(ctx, out, m, op):
         else:
             ctx.trace_ok()
         return
-    if "ignored" in out:
+    if "ignored" in out or "unloaded" in out:
         return
     if "ok" not in m:
         ctx.disagree("gen.seq.call", inp, {"accepted": out.get("attrs")}, m)
@@ -868,7 +900,7 @@ def run_ignored_names(ctx):
             out["dt"] = datetime.datetime(2024, 1, 2, 3, 4, 5)
             if "ignored" not in out:
                 ctx.note("name expected to be ignored was loaded: %r %r" % (tmpl, rid))
-            flush_segments(ctx, env, [(G.hist_of_map(sd.revision_map), [model_args(call, rid)], [out])])
+            flush_segments(ctx, env, [(G.hist_of_map(sd.revision_map), [model_args(call, rid, env)], [out])])
         finally:
             env.close()
 
@@ -961,7 +993,8 @@ def replay(ctx, case):
             spec = ctx.drv.ask1({"op": "gen.spec.view", "a": res[0]["inc"], "b": res[0]["fresh"]})
         return {"impl": res or err, "model_incremental": m, "model_fresh": f, "spec": spec}
     # file based: rebuild the history with generate_revision, then run the call
-    env = G.Scratch(file_template=inp.get("file_template"), trunc=inp.get("trunc"), two_locations=inp.get("locations", 1) > 1)
+    env = G.Scratch(file_template=inp.get("file_template"), trunc=inp.get("trunc"), two_locations=inp.get("locations", 1) > 1,
+                    recursive=inp.get("recursive", False))
     try:
         with warnings.catch_warnings():
             warnings.simplefilter("ignore")
@@ -983,7 +1016,7 @@ def replay(ctx, case):
             except Exception as e:  # noqa
                 out["fresh_error"] = repr(e)
         out["model"] = ctx.drv.ask1({"op": "gen.seq", "revs": G.hist_of_map(sd.revision_map) if False else inp.get("history", []),
-                                     "calls": [model_args(call, inp["rid"])]})
+                                     "calls": [model_args(call, inp["rid"], env)]})
         return out
     finally:
         env.close()
